@@ -61,6 +61,13 @@ struct E {
         ++writes; writer = t_serial.v;
         return *this;
     }
+    // *poisoned* default order: a scrambled function of (pos, seq), inconsistent with every comparator the
+    // harness passes.  tlx code that forgets to pass `comp` on still compiles, and its wrong result is
+    // reported by the oracle with a concrete input.
+    static unsigned poison(const E& e) { return static_cast<unsigned>(e.pos * 31 + e.seq + 1) * 2654435761u; }
+    friend bool operator<(const E& a, const E& b) { return poison(a) < poison(b); }
+    friend bool operator>(const E& a, const E& b) { return poison(a) > poison(b); }
+    friend bool operator==(const E& a, const E& b) { return a.seq == b.seq && a.pos == b.pos; }
 };
 
 enum Cmp { LT, GT, HALF };
